@@ -21,7 +21,7 @@ const (
 // 100 evictions, 17 replacement spends what it evicts, 18 fee rate not higher,
 // 19 absolute fee too low, 21 script failure.
 var mustReject = map[int]string{11: "malformed", 13: "already-confirmed", 14: "bad-inputs", 16: "evicts-too-many",
-	17: "spends-evicted", 18: "fee-rate", 19: "absolute-fee", 21: "script"}
+	17: "spends-evicted", 18: "fee-rate", 19: "absolute-fee", 21: "script", 25: "non-final"}
 
 // SpecState is the part of a Mempool.tla state the binder compares.
 type SpecState struct {
